@@ -494,8 +494,15 @@ class JSTypedArray(JSObject):
         return int(value).to_bytes(self._element_size, "little", signed=self._signed)
 
     def _coerce_value(self, value):
-        """Coerce value to the appropriate type. Override in subclasses."""
-        return int(value) if isinstance(value, (int, float)) else 0
+        """ToNumber, then wrap modulo 2^bits (ECMAScript ToInt8 ... ToUint32; NaN and infinities become 0)."""
+        n = to_number(value)
+        if isinstance(n, float):
+            n = int(n) if math.isfinite(n) else 0
+        bits = 8 * self._element_size
+        n &= (1 << bits) - 1
+        if self._signed and n >= 1 << (bits - 1):
+            n -= 1 << bits
+        return n
 
     def __repr__(self) -> str:
         return f"{self._type_name}({self._data})"
@@ -508,17 +515,6 @@ class JSInt32Array(JSTypedArray):
     _type_name = "Int32Array"
     _signed = True
 
-    def _coerce_value(self, value):
-        """Coerce to signed 32-bit integer."""
-        if isinstance(value, (int, float)):
-            v = int(value)
-            # Handle overflow to signed 32-bit
-            v = v & 0xFFFFFFFF
-            if v >= 0x80000000:
-                v -= 0x100000000
-            return v
-        return 0
-
 
 class JSUint32Array(JSTypedArray):
     """JavaScript Uint32Array."""
@@ -526,12 +522,6 @@ class JSUint32Array(JSTypedArray):
     _element_size = 4
     _type_name = "Uint32Array"
     _signed = False
-
-    def _coerce_value(self, value):
-        """Coerce to unsigned 32-bit integer."""
-        if isinstance(value, (int, float)):
-            return int(value) & 0xFFFFFFFF
-        return 0
 
 
 class JSFloat64Array(JSTypedArray):
@@ -542,10 +532,8 @@ class JSFloat64Array(JSTypedArray):
     _signed = False
 
     def _coerce_value(self, value):
-        """Coerce to float."""
-        if isinstance(value, (int, float)):
-            return float(value)
-        return 0.0
+        """Coerce to float (ToNumber)."""
+        return float(to_number(value))
 
     def _unpack_value(self, data: bytes):
         """Unpack bytes to float64."""
@@ -567,12 +555,6 @@ class JSUint8Array(JSTypedArray):
     _type_name = "Uint8Array"
     _signed = False
 
-    def _coerce_value(self, value):
-        """Coerce to unsigned 8-bit integer."""
-        if isinstance(value, (int, float)):
-            return int(value) & 0xFF
-        return 0
-
 
 class JSInt8Array(JSTypedArray):
     """JavaScript Int8Array."""
@@ -580,15 +562,6 @@ class JSInt8Array(JSTypedArray):
     _element_size = 1
     _type_name = "Int8Array"
     _signed = True
-
-    def _coerce_value(self, value):
-        """Coerce to signed 8-bit integer."""
-        if isinstance(value, (int, float)):
-            v = int(value) & 0xFF
-            if v >= 0x80:
-                v -= 0x100
-            return v
-        return 0
 
 
 class JSInt16Array(JSTypedArray):
@@ -598,15 +571,6 @@ class JSInt16Array(JSTypedArray):
     _type_name = "Int16Array"
     _signed = True
 
-    def _coerce_value(self, value):
-        """Coerce to signed 16-bit integer."""
-        if isinstance(value, (int, float)):
-            v = int(value) & 0xFFFF
-            if v >= 0x8000:
-                v -= 0x10000
-            return v
-        return 0
-
 
 class JSUint16Array(JSTypedArray):
     """JavaScript Uint16Array."""
@@ -614,12 +578,6 @@ class JSUint16Array(JSTypedArray):
     _element_size = 2
     _type_name = "Uint16Array"
     _signed = False
-
-    def _coerce_value(self, value):
-        """Coerce to unsigned 16-bit integer."""
-        if isinstance(value, (int, float)):
-            return int(value) & 0xFFFF
-        return 0
 
 
 class JSUint8ClampedArray(JSTypedArray):
@@ -630,16 +588,12 @@ class JSUint8ClampedArray(JSTypedArray):
 
     def _coerce_value(self, value):
         """Coerce to clamped unsigned 8-bit integer (0-255)."""
-        if isinstance(value, (int, float)):
-            # Round half to even for 0.5 values
-            v = round(value)
-            # Clamp to 0-255
-            if v < 0:
-                return 0
-            if v > 255:
-                return 255
-            return v
-        return 0
+        n = to_number(value)
+        if n != n or n <= 0:  # NaN and everything below 0
+            return 0
+        if n >= 255:
+            return 255
+        return round(n)  # round half to even
 
 
 class JSFloat32Array(JSTypedArray):
@@ -653,11 +607,12 @@ class JSFloat32Array(JSTypedArray):
         """Coerce to 32-bit float."""
         import struct
 
-        if isinstance(value, (int, float)):
+        x = float(to_number(value))
+        try:
             # Convert to float32 and back to simulate precision loss
-            packed = struct.pack("<f", float(value))
-            return struct.unpack("<f", packed)[0]
-        return 0.0
+            return struct.unpack("<f", struct.pack("<f", x))[0]
+        except OverflowError:  # beyond the binary32 range: rounds to an infinity
+            return math.copysign(math.inf, x)
 
     def _unpack_value(self, data: bytes):
         """Unpack bytes to float32."""
